@@ -292,11 +292,23 @@ DIED = {"maxv": [], "cursor": [], "disk": [], "bres": [], "grew": [], "snap": No
 
 
 def run(binp, cases):
-    """one driver process per 200 cases: bounds the memory of a driver (every store open maps a 128 MB memtable)"""
+    """one driver process per 200 cases: bounds the memory of a driver (every store open maps a 128 MB memtable).
+    A driver PROCESS that dies (Go runtime fatal error under resource exhaustion on an overloaded machine: the driver
+    limits its own address space, and thread creation can fail) takes down whatever case was in flight, so a case
+    reported as died is executed again alone in a fresh driver, twice at most; a crash that belongs to the case
+    reproduces and is then reported as died."""
     env = {"VERIF_C20_WORKERS": os.environ.get("VERIF_C20_WORKERS", "2")}
     obs = []
     for i in range(0, len(cases), 200):
         obs.extend(vlib.run_driver(binp, cases[i:i + 200], died_obs=DIED, env=env))
+    env1 = dict(env, VERIF_C20_WORKERS="1")
+    for i, o in enumerate(obs):
+        tries = 0
+        while o.get("outcome") == "died" and tries < 2:
+            tries += 1
+            o = vlib.run_driver(binp, [cases[i]], died_obs=DIED, env=env1)[0]
+            o["retried"] = tries
+        obs[i] = o
     return obs
 
 
@@ -429,7 +441,8 @@ def tags(c, o):
     sid = c.get("sid")
     cfgtag = "backup-source-location=" + (c.get("bsl") or "unset")
     kind = "generated" if sid is None else ("numeric" if sid.isdigit() else ("empty" if sid == "" else "label/whitespace"))
-    return ["backups=%d" % nb, "restarts=%d" % min(nr, 3), "prefilled=%s" % bool(c.get("foreign")),
+    extra = ["re-executed-after-driver-crash"] if o.get("retried") else []
+    return extra + ["backups=%d" % nb, "restarts=%d" % min(nr, 3), "prefilled=%s" % bool(c.get("foreign")),
             "idfile-changes=%d" % min(ne, 3), "store-id=" + kind, cfgtag,
             "outcome=" + str(o.get("outcome")), "len=%d" % min(len(c["ops"]), 12),
             "restore=" + ("none" if not o.get("hasrest") else ("equal" if o.get("richeq") else "differs"))]
